@@ -273,6 +273,14 @@ def oracle(c, prop, viol):
         return
     if fail_at is not None:
         # ---- C14
+        if "perr" in kv:
+            # per-command stream pipes are outside `Pipe.Cfg`; the cleanup is checked against the small model of
+            # Props/C14.lean (`cleanupSeq`, c14_cleanup_waits_with_nothing_held): every wait of the cleanup holds nothing
+            for t in toks:
+                m = re.match(r"w(\d+)\[(.*)\]$", t)
+                if m and m.group(2):
+                    viol("the cleanup of the failed start waits for command %s while the parent still holds [%s]" % (m.group(1), m.group(2)))
+                    break
         if res[0] != "err":
             viol("command %d cannot be started but the terminator returned success" % fail_at)
         if info["forks"] != fail_at + 1:
